@@ -1,31 +1,145 @@
-"""Single table: property id -> (contract modules whose tasks serve it, frame obligations,
-bounded drivers, claimed level, explanation, standing assumptions)."""
+"""Single table: property id -> (bounded drivers, frame obligations, claimed level,
+explanation, standing assumptions).  Proof-tier tasks are selected by the `props` list
+each task carries (all modules of PYVC_MODULES are scanned)."""
 
-A_NUMPY = "A-numpy: numpy/autoray/LAPACK primitives are uninterpreted in the proof tier (shape/linearity axioms only) and executed in the bounded tier"
-A_BUILTINS = "A-builtins: pyvc's models of CPython builtins (len sum all any tuple list dict range zip enumerate reversed min max isinstance, dict/list methods); cross-checked against CPython by pyvc/crosscheck.py"
+import os
+
+A_NUMPY = "A-numpy: numpy/autoray/LAPACK primitives are uninterpreted in the proof tier (shape / linearity level only) and executed for real in the bounded tier"
+A_BUILTINS = "A-builtins: pyvc's models of CPython builtins (len sum all any tuple list dict range zip enumerate reversed min max isinstance, dict/list methods, comprehension = map/filter); cross-checked against CPython by pyvc/crosscheck.py"
 A_TERM = "termination not proved (partial correctness)"
 A_INT = "Python int is a mathematical integer (exact, no assumption); float treated as real where it enters kernel code (A-float)"
+A_BOUNDED = "bounded tier: small-scope universe (stated per contract in the evidence); labelled bounded, never counted as proved"
+A_USER = "user-defined Symmetry subclasses and non-numpy backends are outside the claim"
 
 # every contract module; a task serves the properties listed in its `props`
 PYVC_MODULES = [
     "contracts.symmetries",
     "contracts.oddpos",
     "contracts.phases",
+    "contracts.blockwise",
+    "contracts.splits",
+    "contracts.hamiltonians",
 ]
 
-PROPERTY_MAP = {
-    "C17": {
-        "pyvc": True,
-        "bounded": ["bounded.run_C17"],
-        "level": "proof",
-        "explanation": "Group laws, parity homomorphism and canonical-representative clauses for Z2, Z4, U1, Z2Z2, U1U1 are obligations over symbolic executions of the real method bodies (all of Z for U1-type, every arity through the ghost fold); sector enumeration is proved sound/complete/duplicate-free for arbitrary rank from the loop body of gen_valid_sectors. The bounded run re-executes the same laws exhaustively as a cross-check of the encoder.",
-        "assumptions": [A_BUILTINS, A_INT, A_TERM, "user-defined Symmetry subclasses are outside the claim"],
-    },
+BASE = [A_BUILTINS, A_INT, A_TERM, A_NUMPY, A_BOUNDED, A_USER]
+
+
+def _p(bounded, level, explanation, frames=(), extra=()):
+    return {"bounded": list(bounded), "frames": list(frames), "level": level, "explanation": explanation, "assumptions": BASE + list(extra)}
+
+
+_ALL = {
+    "C01": _p(
+        ["bounded.run_C01"],
+        "other",
+        "Proof core: the representation invariant is carried by per-operation contracts on the real code (sign-table operations keep table values +-1 and touch only stored sectors; blockwise ops keep key sets inside the operands' key sets; label-count parity of resolve_combined_oddpos; canonical charges from the symmetry contracts), which closes over arbitrary programs by induction on program length. Bounded: an independent Valid audit after every step of generated programs of public operations.",
+    ),
+    "C02": _p(
+        ["bounded.run_C02"],
+        "other",
+        "Proof core: axes parsing / pairing bookkeeping obligations of the contraction code. Element-level equality with the dense contraction is numpy semantics and is decided by the bounded tier: exact comparison (integer data) against np.tensordot/np.einsum/np.trace on an independent densifier, all modes.",
+    ),
+    "C03": _p(
+        ["bounded.run_C03"],
+        "other",
+        "Proof core: each sign-table operation multiplies the pending sign of exactly the stored sectors by the specified factor (parity sum for phase_flip, ghost Koszul sign for phase_transpose) and leaves everything else untouched, out of place with frames; calc_phase_permutation reversal branch. Bounded: element-exact comparison with an independent graded (Grassmann) tensor calculator validated against a brute-force anticommuting-polynomial evaluator.",
+    ),
+    "C04": _p(
+        ["bounded.run_C04"],
+        "other",
+        "Proof core (unbounded number of labels): resolve_combined_oddpos is a sequence of legal Grassmann rewrites (R1 swap, R2 pair contraction) ending in the sorted pair-free normal form, with the accumulated sign applied exactly once; the label order is a strict total order compatible with conjugation. Bounded: all routes through 2-4 tensor networks agree with each other and with the graded oracle.",
+        extra=["A-grass: uniqueness of the normal form of a word under R1/R2 (mathematics)"],
+    ),
+    "C05": _p(
+        ["bounded.run_C05"],
+        "other",
+        "Proof core: accum_for_split returns exactly the consecutive prefix-sum intervals (unbounded length), from which insert-, concat- and unfuse layouts are derived by the same table. Bounded: element-relocation oracle, exact zeros, bit-for-bit round trips, insert==concat, cache on/off.",
+    ),
+    "C06": _p(
+        ["bounded.run_C06"],
+        "other",
+        "Bounded tier decides (modes agree in rank, index structure incl. sub-index info and values; contraction of fused operands equals contraction); proof core shared with C05/C02 (layout tables, key algebra).",
+    ),
+    "C07": _p(
+        ["bounded.run_C07"],
+        "exploration",
+        "No deductive content: calc_reshape_args manipulates string labels built with f-strings (outside the verifier's subset) and the property itself prescribes exhaustion. Bounded, complete up to the stated bound: the axis-matching routine exhaustively over shapes with <=5 axes of sizes {1,2,3,4,6}; array-level round trips.",
+    ),
+    "C08": _p(
+        ["bounded.run_C08"],
+        "other",
+        "Proof core: key-set algebra of _binary_blockwise_op for the three missing-modes with whole-view postconditions and frames (right operand never modified, left only in place), arithmetic dunder dispatch. Bounded: op(dense) == dense(op) exactly, three call routes.",
+    ),
+    "C09": _p(
+        ["bounded.run_C09"],
+        "other",
+        "Proof core: phase_sync preserves the val view of every sector, empties the table, is idempotent; every sign-introducing operation acts on the val view by a key-determined factor (hence commutes with sync). Bounded: op(x) == op(x.phase_sync()) for every public operation over lazily signed arrays.",
+    ),
+    "C10": _p(
+        ["bounded.run_C10"],
+        "other",
+        "Proof core: conjugation of label words (reversal + dag) is an involution that preserves the normal form and reverses the order; FermionicOperator.dag laws. Bounded: norms of arrays and locally conjugated networks, involutions, dagger == conj then reversal for both flag values.",
+    ),
+    "C11": _p(
+        ["bounded.run_C11"],
+        "other",
+        "Bounded tier decides (reconstruction through the library's own contraction, orthonormality, triangularity, ordering, bond structure; tolerance 1e-9). LAPACK and floating point are outside deductive reach.",
+    ),
+    "C12": _p(
+        ["bounded.run_C12"],
+        "exploration",
+        "No deductive content (LAPACK, floating point). Bounded: spectra / norms / solutions against dense numpy.",
+    ),
+    "C13": _p(
+        ["bounded.run_C13"],
+        "other",
+        "Proof core: calc_sub_max_bonds returns the sizes unchanged when no limit applies and otherwise a split with sum == max_bond and 0 <= part <= sector size (unbounded number of sectors; reals for floats). Bounded: kept-set oracle for six cutoff modes x cutoffs x bond limits x absorb options.",
+        extra=["fold lemmas LS_store / LS_scale / LS_floor assumed at the instances used (Lean: contracts/lean)"],
+    ),
+    "C14": _p(
+        ["bounded.run_C14"],
+        "other",
+        "Proof core: frame clauses of the contracts under verification - every out-of-place sign-table operation, copy/copy_with and the blockwise binary operation leave every field of every operand exactly as it was and return objects whose dicts are not shared; in-place variants return the receiver. Bounded: operand snapshots around every public call and call pair; inplace == out-of-place.",
+    ),
+    "C15": _p(
+        ["bounded.run_C15"],
+        "other",
+        "Proof core: default_tensordot_mode restores the previous mode on normal and exceptional exit; cache key coverage obligations. Bounded: cold/warm/evicting histories over near-identical arrays. The thread clause is outside this technique family: only a bounded stress run.",
+        extra=["schedules (threads) are NOT covered by any contract: bounded stress run only"],
+    ),
+    "C16": _p(
+        ["bounded.run_C16"],
+        "other",
+        "Proof core: symmetry registry and class-symmetry resolution. Bounded: four construction routes agree, both dense round trips, every combination of omitted optional arguments.",
+    ),
+    "C17": _p(
+        ["bounded.run_C17"],
+        "proof",
+        "Group laws, parity homomorphism and canonical-representative clauses for Z2, Z4, U1, Z2Z2, U1U1 are obligations over symbolic executions of the real method bodies (all of Z for U1-type charges, every arity through the ghost fold). The bounded run re-executes the same laws exhaustively over the box named by the property and checks sector enumeration against brute force, as a cross-check of the encoder.",
+    ),
+    "C18": _p(
+        ["bounded.run_C18"],
+        "other",
+        "Proof core: charge index maps equal particle number / parity of the documented basis; model term lists. Bounded: elements equal Jordan-Wigner vacuum expectation values; action on states, Hermiticity, spectrum, composition.",
+    ),
+    "C19": _p(
+        ["bounded.run_C19"],
+        "other",
+        "Proof core (unbounded graphs): the coordination loops compute exactly the degree of every site (ghost DEG with loop invariant), every edge's local term receives that bond's coefficient from scalar / dict-in-either-orientation / callable inputs and the final degrees; the literal term lists carry -t on both hoppings and U/z, -mu/z on-site; z*(c/z)=c. Bounded: sum of embedded edge terms equals the Jordan-Wigner lattice Hamiltonian on all graphs with <=4 sites.",
+    ),
+    "C20": _p(
+        ["bounded.run_C20"],
+        "other",
+        "Bounded tier decides (dtype audit of every result block for four dtypes with sparsity forcing zero-block creation); dtype-flow obligations at the zero-creation sites.",
+    ),
 }
 
-# properties not (yet) claimed, each with the reason
-NOT_APPLICABLE = {
-    pid: "check not yet registered in this revision of /verif (machinery under construction; see DESIGN.md section 4 for the planned contract)"
-    for pid in ["C%02d" % i for i in range(1, 21)]
-    if pid not in PROPERTY_MAP
-}
+# a property is registered only when its bounded driver is present in this revision
+_HERE = os.path.dirname(os.path.dirname(os.path.abspath(__file__)))
+PROPERTY_MAP = {}
+NOT_APPLICABLE = {}
+for _pid, _pm in _ALL.items():
+    if all(os.path.exists(os.path.join(_HERE, *d.split(".")) + ".py") for d in _pm["bounded"]) and _pid not in os.environ.get("VERIF_DISABLE", "").split(","):
+        PROPERTY_MAP[_pid] = _pm
+    else:
+        NOT_APPLICABLE[_pid] = "check not yet registered in this revision of /verif (driver under construction; planned contract in DESIGN.md section 4)"
